@@ -149,7 +149,7 @@ func checkC08(c *Ctx) {
 					e.Kind = "table"
 					nr := r.Intn(4)
 					for j := 0; j < nr; j++ {
-						row := MSTable{Var: r.Pick([]string{"VAR_TEMP_0", "VAR_STATE", "VAR_0x8004"}), Val: r.Pick([]string{"0", "1", "5", "1 + 2", "STATE_X"})}
+						row := MSTable{Var: r.Pick([]string{"VAR_TEMP_0", "VAR_STATE", "VAR_0x8004", "VAR_A + 1", "VAR_B % 2"}), Val: r.Pick([]string{"0", "1", "5", "1 + 2", "STATE_X", "NUM_STATES % 4", "( A | B ) & 3", "-1"})}
 						if r.Chance(1, 2) {
 							row.Kind, row.Target = "plain", fmt.Sprintf("Ext_Row_%d", j)
 						} else {
